@@ -7,7 +7,7 @@
    profile (Debug: overflow panics, Release: wraps): theorems hold for both.      *)
 From Coq Require Import ZArith QArith List.
 From MW Require Import Model.Base Model.F64 Model.Num Model.Ratio32 Model.NumArith Model.NumSpec
-  Proofs.GcdProofs Proofs.Ratio32Proofs Proofs.NumProofs Proofs.NumDivProofs.
+  Proofs.GcdProofs Proofs.Ratio32Proofs Proofs.NumProofs Proofs.NumDivProofs Proofs.NumInexactProofs.
 Import ListNotations.
 Open Scope Z_scope.
 
@@ -178,11 +178,76 @@ Theorem C08_ratio_reduce_signed : forall p w n d, 2 <= w ->
 Proof. exact rreduce_gen. Qed.
 Print Assumptions C08_ratio_reduce_signed.
 
-(* OPEN: op_inexact_only_if outside the recorded fallback classes *)
+(* op_inexact_only_if for +.  The statement as first written (kept, REFUTED below) quantifies
+   over an arbitrary [known_fallback], so it is false for known_fallback := nothing.  Corrected:
+   [add_takes_fallback a b] spells out, without running the code, the overflow conditions
+   under which Add leaves the exact representations (operand outside i32 next to a Rational;
+   BigInt next to a non-integer Rational; lcm / scaled numerators / sum outside i32 in
+   checked_add); [representable v] decides whether some well-formed exact number has the value
+   v; [add_known_fallback] is their conjunction = the recorded classes
+   float-fallback-representable and bigint-small-repr-dependence for +, and nothing else
+   (C08_add_known_fallback_tight).
+   STILL OPEN: the same for - * / and the variadic folds. *)
 Definition C08_inexact_only_if_stmt : Prop := forall p a b r (known_fallback : num -> num -> bool),
   wfb a = true -> wfb b = true -> is_exact a = true -> is_exact b = true ->
   known_fallback a b = false -> num_add p a b = Ok r -> is_exact r = false ->
   forall x, wfb x = true -> is_exact x = true -> ~ (qv x == qv a + qv b)%Q.
+
+(* the result of + on exact operands is inexact exactly on the explicit overflow conditions *)
+Theorem C08_add_inexact_iff : forall p a b r,
+  wfb a = true -> wfb b = true -> is_exact a = true -> is_exact b = true ->
+  num_add p a b = Ok r -> is_exact r = negb (add_takes_fallback a b).
+Proof. exact add_inexact_iff. Qed.
+Print Assumptions C08_add_inexact_iff.
+
+Theorem C08_inexact_only_if : forall p a b r,
+  wfb a = true -> wfb b = true -> is_exact a = true -> is_exact b = true ->
+  add_known_fallback a b = false -> num_add p a b = Ok r -> is_exact r = false ->
+  forall x, wfb x = true -> is_exact x = true -> ~ (qv x == qv a + qv b)%Q.
+Proof. exact add_inexact_only_if. Qed.
+Print Assumptions C08_inexact_only_if.
+
+(* every member of the class is an instance of the defect: inexact although representable *)
+Theorem C08_add_known_fallback_tight : forall p a b r,
+  wfb a = true -> wfb b = true -> is_exact a = true -> is_exact b = true ->
+  add_known_fallback a b = true -> num_add p a b = Ok r ->
+  is_exact r = false /\ exists x, wfb x = true /\ is_exact x = true /\ (qv x == qv a + qv b)%Q.
+Proof. exact add_known_fallback_tight. Qed.
+Print Assumptions C08_add_known_fallback_tight.
+
+(* [representable] is exact: sound and complete for "some well-formed exact number has value v" *)
+Theorem C08_representable_sound : forall x v,
+  wfb x = true -> is_exact x = true -> (qv x == v)%Q -> representable v = true.
+Proof. exact representable_sound. Qed.
+Print Assumptions C08_representable_sound.
+Theorem C08_representable_complete : forall v, representable v = true ->
+  exists x, wfb x = true /\ is_exact x = true /\ (qv x == v)%Q.
+Proof. exact representable_complete. Qed.
+Print Assumptions C08_representable_complete.
+
+(* checked_add / checked_sub answer None exactly when one of the four intermediate values
+   leaves the machine width *)
+Theorem C08_ratio_checked_addsub_none_iff : forall (sub : bool) p w a b, 2 <= w -> rok w a -> rok w b ->
+  if addsub_fits sub w a b then exists r, rchecked_addsub sub p w a b = Ok (Some r)
+  else rchecked_addsub sub p w a b = Ok None.
+Proof. exact rchecked_addsub_fits. Qed.
+Print Assumptions C08_ratio_checked_addsub_none_iff.
+
+(* 2147483648 + -1/1 is the float 2147483647.0 although 2147483647 is a Fixnum *)
+Theorem C08_inexact_only_if_refuted : ~ C08_inexact_only_if_stmt.
+Proof.
+  intros H.
+  destruct (addsubmul_total Debug (Fixnum (2 ^ 31)) (Rational (-1) 1) eq_refl eq_refl eq_refl eq_refl)
+    as [[r Hr] _].
+  pose proof (add_inexact_iff Debug (Fixnum (2 ^ 31)) (Rational (-1) 1) r eq_refl eq_refl eq_refl eq_refl Hr) as X.
+  assert (K : add_takes_fallback (Fixnum (2 ^ 31)) (Rational (-1) 1) = true) by (vm_compute; reflexivity).
+  rewrite K in X. cbn [negb] in X.
+  apply (H Debug (Fixnum (2 ^ 31)) (Rational (-1) 1) r (fun _ _ => false)
+           eq_refl eq_refl eq_refl eq_refl eq_refl Hr X (Fixnum (2 ^ 31 - 1)) eq_refl eq_refl).
+  vm_compute. reflexivity.
+Qed.
+Print Assumptions C08_inexact_only_if_refuted.
+
 (* modulo = flooring remainder.  The statement as first written (kept below, now REFUTED) is
    false in one arm: Fixnum modulo an integer-valued Rational (number.rs:870-878 runs the
    remainder on Rational64, then Rational32 + Rational32).  [modulo_known] is exactly that
@@ -245,6 +310,20 @@ Proof.
   repeat split; try (intros s; vm_compute; discriminate); try (vm_compute; reflexivity).
   eexists; vm_compute; reflexivity.
 Qed.
+
+(* C08_inexact_only_if: a justified inexact sum (2^32 + 1/2: fallback taken, not representable,
+   so the hypotheses of the theorem hold), and members of the defect class *)
+Example C08_example_inexact :
+  add_takes_fallback (Fixnum (2 ^ 32)) (Rational 1 2) = true /\
+  add_known_fallback (Fixnum (2 ^ 32)) (Rational 1 2) = false /\
+  inexact_result (num_add Debug (Fixnum (2 ^ 32)) (Rational 1 2)) = true /\
+  add_known_fallback (Rational (2 ^ 31 - 1) 2) (Rational (2 ^ 31 - 1) 3) = false /\
+  inexact_result (num_add Release (Rational (2 ^ 31 - 1) 2) (Rational (2 ^ 31 - 1) 3)) = true /\
+  add_known_fallback (Fixnum (2 ^ 31)) (Rational (-1) 1) = true /\
+  add_known_fallback (BigInt 5) (Rational 1 2) = true /\
+  add_known_fallback (Rational (2 ^ 31 - 1) 1) (Rational 1 1) = true /\
+  add_takes_fallback (Fixnum 5) (Rational 1 2) = false.
+Proof. repeat split; vm_compute; reflexivity. Qed.
 
 (* C08_modulo_exact: hypotheses satisfiable on each interesting arm, incl. Fixnum by n/1 *)
 Example C08_example_modulo :
